@@ -1,6 +1,7 @@
 (* Streams: io.BytesIO, BytesIOWithOffsets (a region of a parent stream that reports absolute
    offsets) and the view RestreamedBytesIO gives of a stream (tell counts bytes, seek only to the
-   current position).  stream_read/_write/_seek/_tell of core.py with their StreamError. *)
+   current position).  stream_read/_write/_seek/_tell of core.py with their StreamError.
+   Positions are binary numbers (N): a seek may go anywhere, far beyond the data. *)
 From Coq Require Import ZArith NArith List Bool.
 From Coq Require Import Strings.Byte.
 Require Import Bytes Value.
@@ -8,88 +9,98 @@ Import ListNotations.
 
 Record istream := mkI {
   idata : bytes;      (* the whole buffer *)
-  ipos : nat;         (* position in the buffer (may exceed its length after a seek) *)
-  ibase : nat;        (* absolute offset of idata[0] in the outermost stream *)
+  ipos : N;           (* position in the buffer (may exceed its length after a seek) *)
+  ibase : N;          (* absolute offset of idata[0] in the outermost stream *)
   iseekable : bool    (* false: RestreamedBytesIO *)
 }.
 
-Definition istream_of (data : bytes) : istream := mkI data 0 0 true.
-Definition substream (data : bytes) (base : nat) : istream := mkI data 0 base true.
-Definition iset_pos (s : istream) (p : nat) : istream := mkI (idata s) p (ibase s) (iseekable s).
+Definition nlen {A} (l : list A) : N := N.of_nat (length l).
 
-Definition itell (s : istream) : Z := Z.of_nat (ibase s + ipos s).
-Definition iavail (s : istream) : bytes := skipn (ipos s) (idata s).
+Definition istream_of (data : bytes) : istream := mkI data 0 0 true.
+Definition substream (data : bytes) (base : N) : istream := mkI data 0 base true.
+Definition iset_pos (s : istream) (p : N) : istream := mkI (idata s) p (ibase s) (iseekable s).
+
+Definition itell (s : istream) : Z := Z.of_N (ibase s + ipos s).
+Definition iabs (s : istream) : N := (ibase s + ipos s)%N.
+(* the unread bytes *)
+Definition iavail (s : istream) : bytes :=
+  if (nlen (idata s) <=? ipos s)%N then [] else skipn (N.to_nat (ipos s)) (idata s).
 
 (* stream_read(stream, length, path) *)
 Definition iread (s : istream) (n : Z) (p : path) : res (bytes * istream) :=
   if (n <? 0)%Z then raise EStream p
   else
-    let k := Z.to_nat n in
     let av := iavail s in
-    if Nat.ltb (length av) k then raise EStream p
-    else Ok (firstn k av, iset_pos s (ipos s + k)).
+    if (Z.of_nat (length av) <? n)%Z then raise EStream p
+    else Ok (firstn (Z.to_nat n) av, iset_pos s (ipos s + Z.to_N n)).
 
 (* stream_read_entire *)
 Definition iread_all (s : istream) : bytes * istream :=
-  (iavail s, iset_pos s (Nat.max (ipos s) (length (idata s)))).
+  (iavail s, iset_pos s (N.max (ipos s) (nlen (idata s)))).
 
 (* stream_seek(stream, offset, whence, path); returns the new absolute position *)
 Definition iseek (s : istream) (off : Z) (whence : Z) (p : path) : res (Z * istream) :=
   if negb (iseekable s) then
     (if (whence =? 0)%Z && (off =? itell s)%Z then Ok (itell s, s) else raise EStream p)
   else if (whence =? 0)%Z then
-    let rel := (off - Z.of_nat (ibase s))%Z in
+    let rel := (off - Z.of_N (ibase s))%Z in
     if (rel <? 0)%Z then raise EStream p
-    else let s' := iset_pos s (Z.to_nat rel) in Ok (itell s', s')
+    else let s' := iset_pos s (Z.to_N rel) in Ok (itell s', s')
   else if (whence =? 1)%Z then
-    let np := Z.max 0 (Z.of_nat (ipos s) + off) in
-    let s' := iset_pos s (Z.to_nat np) in Ok (itell s', s')
+    let np := Z.max 0 (Z.of_N (ipos s) + off) in
+    let s' := iset_pos s (Z.to_N np) in Ok (itell s', s')
   else if (whence =? 2)%Z then
     let np := Z.max 0 (Z.of_nat (length (idata s)) + off) in
-    let s' := iset_pos s (Z.to_nat np) in Ok (itell s', s')
+    let s' := iset_pos s (Z.to_N np) in Ok (itell s', s')
   else raise EStream p.
 
 (* ---- output ---- *)
 Record ostream := mkO {
   odata : bytes;
-  opos : nat;
+  opos : N;
   oseekable : bool
 }.
 Definition ostream_new : ostream := mkO [] 0 true.
-Definition otell (o : ostream) : Z := Z.of_nat (opos o).
+Definition otell (o : ostream) : Z := Z.of_N (opos o).
 
 Definition zeros (n : nat) : bytes := repeat x00 n.
 
+(* allocations above this many bytes (zero fill after a far seek, padding) are outside the model:
+   the real code would raise MemoryError or run for a very long time *)
+Definition alloc_bound : Z := 1048576.
+
 (* BytesIO.write at the current position: overwrite, extend, zero-fill a gap *)
-Definition owrite_raw (o : ostream) (d : bytes) : ostream :=
+Definition owrite_raw (o : ostream) (d : bytes) : res ostream :=
   let cur := odata o in
-  let pre := if Nat.leb (opos o) (length cur) then firstn (opos o) cur
-             else cur ++ zeros (opos o - length cur) in
-  mkO (pre ++ d ++ skipn (opos o + length d) cur) (opos o + length d) (oseekable o).
+  let len := nlen cur in
+  if (opos o <=? len)%N then
+    let k := N.to_nat (opos o) in
+    Ok (mkO (firstn k cur ++ d ++ skipn (k + length d) cur) (opos o + nlen d) (oseekable o))
+  else if (alloc_bound <? Z.of_N (opos o - len))%Z then unsupported
+  else Ok (mkO (cur ++ zeros (N.to_nat (opos o - len)) ++ d) (opos o + nlen d) (oseekable o)).
 
 (* stream_write(stream, data, length, path) for a bytes value *)
 Definition owrite (o : ostream) (d : bytes) (len : Z) (p : path) : res ostream :=
   if (len <? 0)%Z then raise EStream p
   else if negb (Z.of_nat (length d) =? len)%Z then raise EStream p
-  else Ok (owrite_raw o d).
+  else owrite_raw o d.
 
 Definition oseek (o : ostream) (off : Z) (whence : Z) (p : path) : res (Z * ostream) :=
   if negb (oseekable o) then
     (if (whence =? 0)%Z && (off =? otell o)%Z then Ok (otell o, o) else raise EStream p)
   else if (whence =? 0)%Z then
     if (off <? 0)%Z then raise EStream p
-    else Ok (off, mkO (odata o) (Z.to_nat off) true)
+    else Ok (off, mkO (odata o) (Z.to_N off) true)
   else if (whence =? 1)%Z then
-    let np := Z.max 0 (Z.of_nat (opos o) + off) in Ok (np, mkO (odata o) (Z.to_nat np) true)
+    let np := Z.max 0 (Z.of_N (opos o) + off) in Ok (np, mkO (odata o) (Z.to_N np) true)
   else if (whence =? 2)%Z then
-    let np := Z.max 0 (Z.of_nat (length (odata o)) + off) in Ok (np, mkO (odata o) (Z.to_nat np) true)
+    let np := Z.max 0 (Z.of_nat (length (odata o)) + off) in Ok (np, mkO (odata o) (Z.to_N np) true)
   else raise EStream p.
 
 (* stream_read on an output BytesIO (RawCopy reads back what was built) *)
 Definition oread (o : ostream) (n : Z) (p : path) : res (bytes * ostream) :=
   if (n <? 0)%Z then raise EStream p
   else
-    let k := Z.to_nat n in
-    let av := skipn (opos o) (odata o) in
-    if Nat.ltb (length av) k then raise EStream p
-    else Ok (firstn k av, mkO (odata o) (opos o + k) (oseekable o)).
+    let av := if (nlen (odata o) <=? opos o)%N then [] else skipn (N.to_nat (opos o)) (odata o) in
+    if (Z.of_nat (length av) <? n)%Z then raise EStream p
+    else Ok (firstn (Z.to_nat n) av, mkO (odata o) (opos o + Z.to_N n) (oseekable o)).
